@@ -4,7 +4,7 @@ import re
 
 from .. import core
 from ..convcheck import CXX_T
-from ..core import wire_to_int
+from ..core import wire_to_int, fval
 
 
 def run(ctx):
@@ -71,25 +71,32 @@ def run(ctx):
     periods = sorted({(c["N1"], c["D1"]) for c in cases})
     rt = [{"kind": "rt", "R": r, "N": n, "D": d} for r in ("i32", "i64", "f32", "f64") for (n, d) in periods]
     mixed = [dict(c, kind="mixed") for c in cases if c["ints"] and c["enabled"]]
+    accepted = [dict(c, kind="acc") for c in cases if c["accept"]]
 
     def make_src(b):
         L = [pre, "int main(int argc, char **argv) {", "  auv::MOpts o = auv::parse_mopts(argc, argv);", "  long long bad = 0, n = 0;"]
         for c in b:
             if c["kind"] == "rt":
                 L.append("  bad += auv::chrono_roundtrip<%s, %s, %s>(o.seed); ++n;" % (CXX_T[c["R"]], c["N"], c["D"]))
+            elif c["kind"] == "acc":
+                L.append("  bad += auv::chrono_accept<%s, %s, %s, %s, %sULL, %sULL>(); ++n;" % (CXX_T[c["R1"]], c["N1"], c["D1"], CXX_T[c["R2"]], c["N2"], c["D2"]))
             else:
                 L.append('  auv::chrono_mixed<%s, %s, %s, %s, %sULL, %sULL>("%s", "%s", "%s", "%s", "%s", "%s", o);' % (
                     CXX_T[c["R1"]], c["N1"], c["D1"], CXX_T[c["R2"]], c["N2"], c["D2"], c["K1"], c["K2"], c["lo"], c["hi"], c["plo"], c["phi"]))
         L.append('  std::printf("{\\"k\\":\\"rtsum\\",\\"n\\":%lld,\\"bad\\":%lld}\\n", n, bad);')
         return "\n".join(L + ["  return 0;", "}"]) + "\n"
     args = ["--seed", str(ctx.seed), "--nrandom", "1500" if ctx.tier == "quick" else "100000", "--sample-shift", "11"]
-    recs, dropped, nprog = core.harness_farm(ctx, {"rt": rt, "mixed": mixed}, make_src, cfgs[:2] if ctx.tier == "quick" else cfgs, args, batch=6, tag="chrono")
+    recs, dropped, nprog = core.harness_farm(ctx, {"rt": rt, "mixed": mixed, "acc": accepted}, make_src, cfgs[:2] if ctx.tier == "quick" else cfgs, args, batch=6, tag="chrono")
     for d in dropped:
         if not core.first_error_in_au(d[2]):
             raise core.ToolError("chrono harness does not compile (generator bug?): %s" % d[2][:800])
         ctx.violation({"kind": d[0]["kind"] + "-rejected", "inst": json.dumps({k: v for k, v in d[0].items() if k in ("R", "N", "D", "R1", "N1", "D1", "R2", "N2", "D2")}, sort_keys=True)},
                       "chrono interop program does not compile [%s]: %s" % (d[1], d[2][:300]), detail=d[0])
     for r in recs:
+        if r["k"] == "accmis":
+            ctx.violation({"kind": "implicit conversion value", "Rep": r["Rep"], "Period": r["P"], "R2": r["R2"], "unit": r["U"]},
+                          "duration<%s, %s>{%s} converted implicitly to Quantity<%s s, %s> holds %s; its corresponding quantity converts to %s [%s]" % (
+                              r["Rep"], r["P"], fval(r["v"]), r["U"], r["R2"], fval(r["from_duration"]), fval(r["from_quantity"]), r["cfg"]), detail=r)
         if r["k"] == "rtsum" and r["bad"]:
             ctx.violation({"kind": "roundtrip", "cfg": r["cfg"]}, "%d round-trip checks failed (count/rep/unit/period) in a batch of %d duration types [%s]" % (r["bad"], r["n"], r["cfg"]), detail=r)
     obs = [r for r in recs if r["k"] == "mixed"]
